@@ -28,6 +28,10 @@ PRIMS = {  # scheme name -> (opcode case label, operand kinds)
     "car": ("SEXP_OP_CAR", ["P"]), "cdr": ("SEXP_OP_CDR", ["P"]),
     "set-car!": ("SEXP_OP_SET_CAR", ["P", "any"]), "set-cdr!": ("SEXP_OP_SET_CDR", ["P", "any"]),
     "make-vector": ("SEXP_OP_MAKE_VECTOR", ["n", "any"]),
+    # round 3: char <-> integer opcodes (type guard before unboxing) and the port opcodes (type guards; multi-path bodies)
+    "char->integer": ("SEXP_OP_CHAR2INT", ["chr"]), "integer->char": ("SEXP_OP_INT2CHAR", ["anyfix"]),
+    "char-upcase": ("SEXP_OP_CHAR_UPCASE", ["chr"]), "char-downcase": ("SEXP_OP_CHAR_DOWNCASE", ["chr"]),
+    "write-char": ("SEXP_OP_WRITE_CHAR", ["chr", "W"]), "read-char": ("SEXP_OP_READ_CHAR", ["I"]), "peek-char": ("SEXP_OP_PEEK_CHAR", ["I"]),
 }
 
 IMPORTS = ("(import (only (chibi) string-cursor-ref string-cursor-set! string-cursor-next string-cursor-prev "
@@ -64,10 +68,14 @@ STRS = [("(make-string 3 #\\a)", 3, 0, None), ("(string (integer->char 955) #\\a
         ("(make-string 300 #\\a)", 300, 0, None), ("(string-copy \"hello\")", 5, 0, None),
         ("(utf8->string (bytevector 97 98 99 100 101 102) 2 5)", 3, 0, None)]
 PAIRS = [("(cons 1 2)", 0, 0), ("(list 1 2 3)", 0, 0)]
+# ports: W output, I input; fresh per case; closed ones and an exhausted one included (the SPEC allows an error for them)
+OPORTS = ["(open-output-string)", "(let ((p (open-output-string))) (close-output-port p) p)", "(open-output-bytevector)"]
+IPORTS = ["(open-input-string \"xyz\")", "(open-input-string \"\")", "(open-input-string (string (integer->char 955) #\\a))",
+          "(let ((p (open-input-string \"q\"))) (close-input-port p) p)", "(open-input-bytevector (bytevector 65 200 66))"]
 IMMUT = {"V": ("'#(1 2 3 4)", 4), "B": ("#u8(1 2 3)", 3), "S": ("\"hello\"", 5), "P": ("'(1 2)", 0)}
 OTHERS = [("#f", "i"), ("#t", "i"), ("'()", "i"), ("'sym", "pO:0:0"), ("1.5", "pO:0:0"), ("(expt 2 70)", "pO:0:0"),
           ("(- (expt 2 62))", "f-4000000000000000"), ("(expt 2 62)", "pO:0:0"),
-          ("#\\a", "h61"), ("(lambda (x) x)", "pO:0:0"), ("car", "pO:0:0"), ("(current-output-port)", "pO:0:0"),
+          ("#\\a", "h61"), ("(lambda (x) x)", "pO:0:0"), ("car", "pO:0:0"), ("(open-output-string)", "pW:0:0"), ("(open-input-string \"ab\")", "pI:0:0"),
           ("(if #f #f)", "i"), ("(eof-object)", "i"), ("(/ 1 3)", "pO:0:0"), ("(make-parameter 1)", "pO:0:0")]
 FIXMAX, FIXMIN = (1 << 62) - 1, -(1 << 62)
 CHARS = [("#\\a", 0x61), ("(integer->char 955)", 955), ("(integer->char 8364)", 8364), ("(integer->char 128512)", 128512),
@@ -163,6 +171,10 @@ def pool_objects():
         out.append(obj("S", e, l, i, bd))
     for e, l, i in PAIRS:
         out.append(obj("P", e, l, i))
+    for e in OPORTS:
+        out.append(obj("W", e, 0, 0))
+    for e in IPORTS:
+        out.append(obj("I", e, 0, 0))
     return out
 
 
@@ -195,9 +207,9 @@ def gen_case(rng, prim, objs, p_valid=0.8):
     target = None
     for kd in kinds:
         ok = rng.random() < p_valid
-        if kd in "VBSP" and len(kd) == 1:
+        if kd in "VBSPIW" and len(kd) == 1:
             if ok:
-                if rng.random() < 0.12:
+                if kd in IMMUT and rng.random() < 0.12:
                     v = obj(kd, IMMUT[kd][0], IMMUT[kd][1], 1)
                 else:
                     v = dict(rng.choice([o for o in objs if o["kind"] == kd]))
@@ -222,6 +234,9 @@ def gen_case(rng, prim, objs, p_valid=0.8):
                 v = dict(expr=e, abs="h%x" % c, cls="chr")
             else:
                 v = any_value(rng, objs)
+        elif kd == "anyfix":
+            # integer->char accepts ANY fixnum: scalar values, surrogates, beyond 0x10FFFF, negative, the fixnum extremes
+            v = fix(rng.choice([0, 65, 127, 128, 955, 0xD7FF, 0xD800, 0xDFFF, 0xFFFF, 0x10000, 0x10FFFF, 0x110000, 0x7FFFFFFF, 0x80000000, -1, -5, FIXMAX, FIXMIN])) if ok else any_value(rng, objs)
         elif kd == "n":
             v = fix(rng.choice([0, 1, 2, 10, 1000, -1, -2, FIXMIN, 70000, 1 << 40, FIXMAX, (1 << 61) - 1, (1 << 61) - 2, 1 << 60, (1 << 60) - 1])) if ok else any_value(rng, objs)
         else:
@@ -234,8 +249,13 @@ def call_expr(rng, prim, args):
     names = " ".join("a%d" % i for i in range(len(args)))
     vals = " ".join(a["expr"] for a in args)
     if rng.random() < 0.2:    # through the first-class procedure (opcode wrapper) instead of the inlined opcode
-        return "((lambda (%s) (apply %s (list %s))) %s)" % (names, prim, names, vals)
-    return "((lambda (%s) (%s %s)) %s)" % (names, prim, names, vals)
+        inner = "(apply %s (list %s))" % (prim, names)
+    else:
+        inner = "(%s %s)" % (prim, names)
+    if prim in ("integer->char", "char-upcase", "char-downcase", "read-char", "peek-char"):
+        # a character result is reported by its number: non-scalar characters are not valid UTF-8 on the answer line
+        inner = "(let ((r %s)) (if (char? r) (char->integer r) r))" % inner
+    return "((lambda (%s) %s) %s)" % (names, inner, vals)
 
 
 def relax(prim, args, verdict):
@@ -256,7 +276,7 @@ def replay_cmd(d, expr):
 
 # ------------------------------------------------------------------------------------ the check
 def run(ctx):
-    ctx.cov["rule"] = ("opcode stream: for each of the 17 opcode-backed primitives, operand tuples drawn from a lattice "
+    ctx.cov["rule"] = ("opcode stream: for each of the 24 opcode-backed primitives, operand tuples drawn from a lattice "
                        "(objects of every modelled type incl. empty, 300-element, immutable literals, multi-byte strings; indices "
                        "-1,0,1,len-1,len,len+1,fixnum extremes; cursors -2..len+2, 2000, 100000 (from longer strings); octets -1..256; "
                        "ill-typed values: booleans, symbols, flonums, bignums, ratios, chars, procedures, ports); 80% of operands "
@@ -413,6 +433,8 @@ def run(ctx):
                     inner_bad.setdefault(label, (e, "guard %d: %s" % (k, exp), r))
             elif is_err and verdict == "V":
                 pass   # counted in outer_bad
+        if prim == "char->integer" and not is_err and args[0]["cls"] == "chr" and r != "f" + args[0]["abs"][1:]:
+            outer_bad.setdefault(prim, (e, r))
         if prim in ("vector-length", "bytevector-length") and not is_err:
             if r != "f%x" % args[0].get("len", -1):
                 outer_bad.setdefault(prim, (e, r))
@@ -431,6 +453,11 @@ def run(ctx):
     t0 = time.time()
     ranges_and_zero_stream(ctx, d, dflt)
     ph["ranges_zero_stream"] = round(time.time() - t0, 1)
+    t0 = time.time()
+    bv_accessor_stream(ctx, d)
+    ph["bv_accessor_stream"] = round(time.time() - t0, 1)
+    illformed_string_stream(ctx, d)
+    slot_accessor_stream(ctx, d)
     if trec is not None:
         printer_trunc_stream(ctx, exe, dflt, trec, tconst["vals"])
     t0 = time.time()
@@ -439,6 +466,9 @@ def run(ctx):
     t0 = time.time()
     stack_stream(ctx, exe, d, rng, tconst["vals"])
     ph["stack_stream"] = round(time.time() - t0, 1)
+    t0 = time.time()
+    frame_discipline_stream(ctx, d)
+    ph["frame_stream"] = round(time.time() - t0, 1)
     if unknown and not ctx.violations:
         ctx.broken("gen:C01_VmGuards", "opcode bodies with statements outside the translated subset: %s" % unknown)
     ctx.trust("gcc -E -fdirectives-only (conditional compilation resolved as in the build) and the text-level translator gen/c01_vmguards.py; "
@@ -578,9 +608,32 @@ def prims_stream(ctx, exe, d, rng, consts, n):
         bg = bigs if kind == "f" else [Q60 - 1, -Q60, 1 << 59, -(1 << 59), (1 << 58) + 1]    # a cursor carries 61 signed bits
         return rng.choice([-1, 0, 1, 2, ln - 1, ln, ln + 1, ln // 2, ln + 5] + ([rng.choice(bg)] if rng.random() < 0.3 else []))
     for _ in range(n):
-        f = rng.choice(["substring", "substring", "subbytes", "subbytes", "index2cursor", "cursor2index", "makevector", "makebytes", "fix2cur"])
+        f = rng.choice(["substring", "substring", "subbytes", "subbytes", "index2cursor", "cursor2index", "makevector", "makebytes", "fix2cur",
+                        "utf8ref", "utf8ref", "utf8set", "utf8set"])
         b = rng.choice(STR_BYTES)
         ln = len(b)
+        if f in ("utf8ref", "utf8set"):
+            # any bytes, ill-formed ones included; half of the strings end in a lead byte that is cut off; the sizes
+            # cover the byte stores without slack (size+1 a multiple of the heap alignment: 15, 31, 47)
+            n_ = rng.choice([1, 2, 3, 5, 14, 15, 16, 30, 31, 46, 47, 48, rng.randrange(1, 70)])
+            pool = [0x61, 0x7f, 0x80, 0xbf, 0xc3, 0xdf, 0xe2, 0xef, 0xf0, 0xf4, 0xf7, 0xf8, 0xfb, 0xff, 0x9f, 0x98]
+            bb = bytearray(rng.choice(pool) if rng.random() < 0.4 else 0x61 for _ in range(n_))
+            if rng.random() < 0.5:
+                bb[-1] = rng.choice([0xc3, 0xe2, 0xf0, 0xf4, 0xfb, 0xdf, 0xef])
+                if n_ > 2 and rng.random() < 0.4:
+                    bb[-2] = rng.choice([0xe2, 0xf0])
+            b = bytes(bb)
+            i_ = rng.choice([n_ - 1, n_ - 1, max(0, n_ - 2), max(0, n_ - 3), 0, rng.randrange(n_)])
+            if f == "utf8ref":
+                H.append("utf8ref s%s c%d" % (hx(b), i_))
+                M.append("utf8ref %s %x" % (hx(b), i_))
+                J.append(dict(f=f, src=b, i=i_))
+            else:
+                ch = rng.choice([0x62, 0x3bb, 0x20ac, 0x1f600])
+                H.append("utf8set s%s c%d h%d" % (hx(b), i_, ch))
+                M.append("utf8set %s %x %x" % (hx(b), i_, len(chr(ch).encode())))
+                J.append(dict(f=f, src=b, i=i_, ch=ch))
+            continue
         if f in ("substring", "subbytes"):
             t = "s" if f == "substring" else "b"
             k = "c" if f == "substring" else "f"
@@ -686,6 +739,40 @@ def prims_stream(ctx, exe, d, rng, consts, n):
                 ctx.violation("eval:outcome", input=j["prog"][:200], expected="value or exception object", observed=r, replay=rep)
             continue
         is_err = r.startswith("E ")
+        if f == "utf8ref":
+            lead = j["src"][j["i"]]
+            left = len(j["src"]) - j["i"]
+            need = 1 if lead < 0xc0 or lead > 0xf7 else 2 if lead < 0xe0 else 3 if lead < 0xf0 else 4
+            if mout.startswith("E") != (need > left):
+                bad_model.setdefault(f, (h, mout, "python: lead %#x needs %d bytes, %d left" % (lead, need, left)))
+            elif need > left:
+                if not is_err:
+                    ctx.violation("prim:utf8ref:truncated-lead:no-error", input=h,
+                                  expected="an error object: the lead byte %#x announces %d bytes, %d are left in the string" % (lead, need, left),
+                                  observed=r + "  (a character assembled from bytes beyond the string)", replay=rep)
+            elif 0x80 <= lead < 0xc0 or lead > 0xf7:
+                if not is_err:
+                    bad_model.setdefault(f, (h, "invalid utf8 byte", r))
+            else:
+                c = j["src"][j["i"]:j["i"] + need]
+                v = c[0] if need == 1 else ((c[0] & 0x3f) << 6) + (c[1] & 0x3f) if need == 2 else \
+                    ((c[0] & 0x1f) << 12) + ((c[1] & 0x3f) << 6) + (c[2] & 0x3f) if need == 3 else \
+                    ((c[0] & 0x0f) << 18) + ((c[1] & 0x3f) << 12) + ((c[2] & 0x3f) << 6) + (c[3] & 0x3f)
+                if r != "V f%d" % v:
+                    ctx.violation("prim:utf8ref:wrong-region", input=h, expected="V f%d (decoded from the string's own bytes)" % v, observed=r, replay=rep)
+            continue
+        if f == "utf8set":
+            src, i_ = j["src"], j["i"]
+            lead = src[i_]
+            old = 1 if lead < 0xc0 else 2 if lead < 0xe0 else ((lead >> 4) & 1) + 3
+            old = min(old, len(src) - i_)
+            exp_b = src[:i_] + chr(j["ch"]).encode() + src[i_ + old:]
+            if mout != "V %x" % (len(exp_b) + 1) and old != len(chr(j["ch"]).encode()):
+                bad_model.setdefault(f, (h, mout, "python: new store of %d+1 bytes" % len(exp_b)))
+            if r != "V s" + hx(exp_b):
+                ctx.violation("prim:utf8set:wrong-bytes", input=h, expected="V s%s (the character at the cursor replaced, everything else kept)" % hx(exp_b),
+                              observed=r, replay=rep)
+            continue
         if mout.startswith("E"):
             if not is_err:
                 if f in ("substring", "subbytes") and not j["valid"]:
@@ -834,6 +921,94 @@ def stack_stream(ctx, exe, d, rng, consts):
 
 
 
+# ------------------------------------------------------------------------------------ part 3b: frame discipline of variadic calls
+# (name, parameter list, body, python function of the argument list giving the printed result)
+def _slist(xs):
+    return "(" + " ".join(str(x) for x in xs) + ")"
+
+
+REST_PROCS = [
+    # rest parameter unused: make_call leaves the surplus arguments on the stack, RET pops them (UNUSED_REST protocol)
+    ("r1-unused", "(a . r)", "a", 1, lambda a: str(a[0])),
+    ("r0-unused", "r", "'k", 0, lambda a: "k"),
+    ("r2-unused", "(a b . r)", "(- a b)", 2, lambda a: str(a[0] - a[1])),
+    # used: rest list consed by make_call / '() inserted
+    ("r1-used", "(a . r)", "(cons a r)", 1, lambda a: _slist(a)),
+    ("r0-used", "r", "r", 0, lambda a: _slist(a)),
+    ("r2-used", "(a b . r)", "(list b a (length r) r)", 2, lambda a: _slist([a[1], a[0], len(a) - 2, _slist(a[2:])])),
+    # only ASSIGNED, never read: the parameter needs its slot (and its box when captured) although nothing reads it
+    ("r1-assigned", "(a . r)", "(begin (set! r 5) a)", 1, lambda a: str(a[0])),
+    ("r0-assigned", "r", "(begin (set! r 7) 'z)", 0, lambda a: "z"),
+    ("r2-assigned", "(a b . r)", "(begin (set! r a) (+ a b))", 2, lambda a: str(a[0] + a[1])),
+    ("r1-assigned-if", "(a . r)", "(begin (if (> a 100) (set! r 1)) a)", 1, lambda a: str(a[0])),
+    # assigned and read back
+    ("r1-assigned-read", "(a . r)", "(begin (set! r (cons a r)) r)", 1, lambda a: _slist(a)),
+    # captured by an inner lambda (read / assigned there): boxed at entry
+    ("r1-captured", "(a . r)", "((lambda () (cons a r)))", 1, lambda a: _slist(a)),
+    ("r1-captured-set", "(a . r)", "(begin ((lambda () (set! r 9))) a)", 1, lambda a: str(a[0])),
+    ("r1-captured-set-read", "(a . r)", "(let ((g (lambda (x) (set! r (cons x r))))) (g a) r)", 1, lambda a: _slist(a)),
+    ("r0-captured-set", "r", "(begin ((lambda () (set! r 3))) 'w)", 0, lambda a: "w"),
+    # a fixed parameter assigned next to an unused rest (the box of the fixed one must not move)
+    ("r1-fixed-assigned", "(a . r)", "(begin (set! a (* a 2)) a)", 1, lambda a: str(2 * a[0])),
+    ("r1-local-shadow", "(a . r)", "(let ((r 4)) (+ a r))", 1, lambda a: str(a[0] + 4)),
+]
+
+
+def frame_discipline_stream(ctx, d):
+    """K-outer for the call / return frame protocol: a family of variadic procedures whose rest parameter is unused, used,
+    only assigned, assigned in a closure, captured; each called with 0..5 surplus arguments, directly, through apply and in
+    tail position, from callers that hold PENDING operands on the stack (operands of an outer call evaluated before and after)
+    and locals.  The answer is fixed by the language, so any write of the callee's prologue / make_call / RET outside its own
+    frame shows as a wrong pending operand, a wrong result or a sanitizer report."""
+    defs = "".join("(define (%s%s) %s)\n" % (nm, (" " + ps[1:-1]) if ps.startswith("(") else (" . " + ps), body) for nm, ps, body, _, _ in REST_PROCS)
+    defs += ("(define (verif-pend f . xs) (let ((p 11) (q (vector 22))) (let ((v (apply f xs))) (list p v (vector-ref q 0)))))\n"
+             "(define (verif-tail f a b c) (let ((l1 (* a 1)) (l2 (* b 1))) (if (> l1 -1) (f a b c) l2)))\n"
+             "(define (verif-rec f n xs) (if (= n 0) (apply f xs) (let ((k (* n 3))) (list k (verif-rec f (- n 1) xs) k))))\n")
+    cases = []
+    for nm, ps, body, nfix, fn in REST_PROCS:
+        for extra in range(0, 6):
+            n = nfix + extra
+            args = [10 * (k + 1) + extra for k in range(n)]
+            a = " ".join(str(x) for x in args)
+            r = fn(args)
+            sp = (" " + a) if a else ""
+            cases.append(("direct", nm, n, "(list 1 2 (%s%s) 3 4)" % (nm, sp), "(1 2 %s 3 4)" % r))
+            cases.append(("nested", nm, n, "(vector 'x (%s%s) (list 'y (%s%s)) 'z)" % (nm, sp, nm, sp), "#(x %s (y %s) z)" % (r, r)))
+            cases.append(("apply", nm, n, "(list 5 (apply %s (list%s)) 6)" % (nm, sp), "(5 %s 6)" % r))
+            cases.append(("apply-spread", nm, n, "(list 5 (apply %s%s '()) 6)" % (nm, sp), "(5 %s 6)" % r) if n else
+                         ("apply-empty", nm, n, "(cons (apply %s '()) 8)" % nm, "(%s . 8)" % r))
+            cases.append(("locals", nm, n, "(verif-pend %s%s)" % (nm, sp), "(11 %s 22)" % r))
+            if n == 3:
+                cases.append(("tail", nm, n, "(list 7 (verif-tail %s%s) 8)" % (nm, sp), "(7 %s 8)" % r))
+            if extra in (0, 2):
+                cases.append(("recursive", nm, n, "(verif-rec %s 3 (list%s))" % (nm, sp), "(9 (6 (3 %s 3) 6) 9)" % r))
+            if extra == 1:
+                cases.append(("lambda", nm, n, "((lambda (u v) (list u (%s%s) v)) 'a 'b)" % (nm, sp), "(a %s b)" % r))
+    # too few arguments: an error object, then the same procedure again
+    for nm, ps, body, nfix, fn in REST_PROCS:
+        if nfix:
+            cases.append(("too-few", nm, 0, "(list 1 (guard (e (#t 'err)) (%s)) 2)" % nm, "(1 err 2)"))
+    exprs = [c[3] for c in cases]
+    pdef = {nm: (ps, body) for nm, ps, body, _, _ in REST_PROCS}
+    io = run_cases(d, exprs, prelude_extra=defs, timeout=300, extra_env=ASAN_ENV, max_crashes=4)
+    for (form, nm, n, e, exp), r in zip(cases, io):
+        ctx.count(1, key=("frame", e), nontrivial=True)
+        ctx.cov["traces_validated_against_impl"] += 1
+        if r == "SKIPPED":
+            continue
+        rep = replay_cmd(d, "(begin %s %s)" % (defs.replace("\n", " "), e))
+        if r is None or r.startswith("CRASH") or r == "TIMEOUT":
+            ctx.violation("frame:%s:%s:crash" % (nm, form), input=e, expected=exp, observed=r, replay=rep)
+        elif r != exp:
+            ctx.violation("frame:%s:%s:wrong-value" % (nm, form), input=e + "   [procedure: (lambda %s %s)]" % pdef.get(nm, ("?", "?")),
+                          expected=exp + "  (the pending operands and locals of the caller intact, the result as the language defines it)",
+                          observed=r, replay=rep)
+    ctx.note("frame-discipline stream: %d calls of %d variadic procedures (rest parameter unused / used / only assigned / captured) with 0-5 "
+             "surplus arguments, direct, nested, through apply, in tail position, from callers with pending operands and locals" % (len(cases), len(REST_PROCS)))
+    if cases:
+        ctx.sample(dict(kind="frame", expr=cases[0][3], expected=cases[0][4], impl=io[0]))
+
+
 # ------------------------------------------------------------------------------------ part 4: deep / long / cyclic DATA
 # Every C-recursive (or Scheme-recursive) consumer of data, at depths around and well beyond its depth bound, one
 # process per case, on the normal build with the default 8 MB C stack and with a reduced C stack (unbounded recursion
@@ -874,6 +1049,11 @@ def deep_cases(thorough):
                 if not thorough and cn in ("print:display", "print:write-shared") and ll not in ("car", "vec3-0"):
                     continue
                 plan = [(10010, 2048), (40000, 2048)]
+                if level == "S" and not thorough and ll not in ("car", "cadr", "vec1-0"):
+                    # quick tier: the Scheme-level consumers recurse on the VM stack; their C part (the C pass of equal?,
+                    # write-simple under write) is the function the C-level consumers exercise at 40000 through EVERY link.
+                    # 40000 levels of 3-slot vectors / dotted / mixed data cost 4-14 s each (collector work): thorough tier
+                    plan = [(10010, 2048)]
                 if thorough or cn in ("print:write-simple", "c-equal"):
                     plan.insert(0, (9990, 2048))
                 if level == "C" and (thorough or ll in cheap):
@@ -1212,14 +1392,15 @@ def ranges_and_zero_stream(ctx, d, dflt):
         path = os.path.join(B.SCRATCH, "c01_hang_%d_%d.scm" % (os.getpid(), k))
         open(path, "w").write("(import (scheme base) (scheme write) (scheme inexact)) (write (guard (e (#t 'error-object)) (begin %s 'value)))" % e)
         try:
-            r = B.run_chibi(dflt, [path], timeout=20)
+            r = B.run_chibi(dflt, [path], timeout=hang_tmo)
             res = "rc=%s %s" % (r.returncode, (r.stdout + r.stderr)[-100:])
             good = r.returncode in (0, 70)
         except subprocess.TimeoutExpired:
-            res, good = "no answer after 20 s (killed)", False
+            res, good = "no answer after %d s (killed)" % hang_tmo, False
         os.unlink(path)
         return op, e, good, res
-    with ThreadPoolExecutor(4) as ex:
+    hang_tmo = 40 if ctx.thorough else 10      # an answering probe needs < 1 s (3 s on the loaded machine)
+    with ThreadPoolExecutor(6) as ex:
         for op, e, good, res in ex.map(probe, enumerate(HANG_PROBES)):
             ctx.count(1, key=("hang-probe", e), nontrivial=True)
             if not good:
@@ -1259,6 +1440,185 @@ def ranges_and_zero_stream(ctx, d, dflt):
     for name, (e, exp, got) in soft.items():
         ctx.broken("outer:range:" + name, "%s: expected %s, implementation answered %s" % (e, exp, got))
     ctx.sample(dict(kind="range", expr=exprs[-1], impl=io[-1]))
+
+
+# ------------------------------------------------------------------------------------ part 5b: (scheme bytevector) accessors
+def bv_accessor_cases():
+    """every sized accessor of lib/scheme/bytevector.stub (s8, s/u 16/32/64, ieee single/double; native and with an
+    endianness; ref and set!) at the offsets around the end of a 16-byte bytevector: the window [k, k+width) must lie
+    inside the bytevector or the call must raise.  -> (name, expr, expected or None, valid, kind)"""
+    import struct
+    L = 16
+    src = bytes((37 * i + 11) % 256 for i in range(L))
+    out = []
+    accs = [("s8", 1, "s", False)]
+    for bits in (16, 32, 64):
+        for sg in "su":
+            accs.append(("%s%d" % (sg, bits), bits // 8, sg, True))
+    accs += [("ieee-single", 4, "f", True), ("ieee-double", 8, "f", True)]
+    for nm, w, sg, multi in accs:
+        offs = sorted({-1, 0, 1, L - w - 1, L - w, L - w + 1, L - w + w // 2, L - 1, L, L + 1, 100000, -100000})
+        variants = [("", None)] if not multi else [("-native", None), ("", "little"), ("", "big")]
+        for suffix, en in variants:
+            order = en or "little"
+            for k in offs:
+                valid = 0 <= k <= L - w
+                enarg = (" '%s" % en) if en else ""
+                # ref
+                name = "bytevector-%s%s-ref" % (nm, suffix)
+                exp = None
+                if valid:
+                    chunk = src[k:k + w]
+                    if sg == "f":
+                        v = struct.unpack(("<" if order == "little" else ">") + ("f" if w == 4 else "d"), chunk)[0]
+                        exp = ("ok" if v == v and abs(v) != float("inf") else None, repr(v))
+                    else:
+                        v = int.from_bytes(chunk, order, signed=(sg == "s"))
+                        exp = (("f" if FIXMIN <= v <= FIXMAX else "b") + zhex(v), None)
+                if exp and exp[1] is not None:
+                    e = "(let ((v (%s (bytevector-copy verif-bv) %d%s))) (if (and (real? v) (inexact? v) (= v %s)) 'ok (list 'got v)))" % (name, k, enarg, exp[1]) if exp[0] else "(begin (%s (bytevector-copy verif-bv) %d%s) 'any)" % (name, k, enarg)
+                    want = exp[0] or "any"
+                else:
+                    e = "(%s (bytevector-copy verif-bv) %d%s)" % (name, k, enarg)
+                    want = exp[0] if exp else None
+                out.append((name, e, want, valid, "ref"))
+                # set!
+                name = "bytevector-%s%s-set!" % (nm, suffix)
+                if sg == "f":
+                    val, packed = "1.5", struct.pack(("<" if order == "little" else ">") + ("f" if w == 4 else "d"), 1.5)
+                else:
+                    v = -2 if sg == "s" else (1 << (8 * w)) - 2
+                    val, packed = str(v), v.to_bytes(w, order, signed=(sg == "s"))
+                e = "(let ((t (bytevector-copy verif-bv))) (%s t %d %s%s) (verif-hex t))" % (name, k, val, enarg)
+                want = None
+                if valid:
+                    want = '"%s"' % (src[:k] + packed + src[k + w:]).hex()
+                out.append((name, e, want, valid, "set"))
+    return out, src
+
+
+def bv_accessor_stream(ctx, d):
+    cases, src = bv_accessor_cases()
+    pre = ("(import (scheme bytevector))\n(define verif-bv (bytevector %s))\n"
+           "(define (verif-hex b) (let lp ((i (- (bytevector-length b) 1)) (acc '())) (if (< i 0) (apply string-append acc)"
+           " (lp (- i 1) (cons (let ((s (number->string (bytevector-u8-ref b i) 16))) (if (< (bytevector-u8-ref b i) 16) (string-append \"0\" s) s)) acc)))))\n"
+           % " ".join(str(x) for x in src))
+    io = run_cases(d, [c[1] for c in cases], prelude_extra=pre, timeout=300, extra_env=ASAN_ENV, max_crashes=6, chunk=2000)
+    soft = {}
+    for (name, e, want, valid, kind), r in zip(cases, io):
+        ctx.count(1, key=("bvacc", e), nontrivial=True)
+        if r == "SKIPPED":
+            continue
+        rep = replay_cmd(d, "(begin %s %s)" % (pre.replace("\n", " "), e))
+        if r is None or r.startswith("CRASH") or r == "TIMEOUT":
+            ctx.violation("range:%s:crash" % name, input=e, expected="a value or an error object", observed=r, replay=rep)
+            continue
+        is_err = r.startswith("ERR")
+        if not valid:
+            if not is_err:
+                ctx.violation("range:%s:no-error" % name, input=e,
+                              expected="an error object: the accessed window is not inside the 16-byte bytevector", observed=r, replay=rep)
+            continue
+        if is_err:
+            soft.setdefault(name, (e, "a value (the window is inside the bytevector)", r))
+        elif want not in (None, "any") and r != want:
+            if kind == "set":
+                ctx.violation("range:%s:wrong-bytes" % name, input=e, expected="exactly the window's bytes replaced: %s" % want, observed=r, replay=rep)
+            else:
+                soft.setdefault(name, (e, want, r))
+    for name, (e, exp, got) in soft.items():
+        ctx.broken("outer:bytevector-accessor:" + name, "%s: expected %s, implementation answered %s" % (e, exp, got))
+    ctx.note("(scheme bytevector) accessor stream: %d calls (%d procedures x offsets -1, 0, 1, len-w-1 .. len+1, +-100000 x native/little/big)"
+             % (len(cases), len({c[0] for c in cases})))
+
+
+# ------------------------------------------------------------------------------------ part 5c: ill-formed strings from Scheme
+def illformed_string_stream(ctx, d):
+    """strings whose last byte is a UTF-8 lead byte cut off by the end of the string, made with R7RS procedures alone
+    (utf8->string of arbitrary bytes; integer->char of a non-scalar value), at sizes with and without slack behind the byte store.
+    string-ref of that character has no in-bounds execution: error object; string-set! there must replace exactly the bytes
+    that are left; every other string procedure must answer a value or an error object"""
+    cases = []
+    for n in (1, 2, 3, 5, 14, 15, 16, 30, 31, 46, 47, 48, 62, 63):
+        for lead in (0xC3, 0xE2, 0xF0, 0xF4):
+            mk = "(utf8->string (let ((b (make-bytevector %d 97))) (bytevector-u8-set! b %d %d) b))" % (n, n - 1, lead)
+            pre = "a" * (n - 1)
+            cases.append(("string-ref", "(let ((s %s) (after (make-vector 3 'x))) (char->integer (string-ref s %d)))" % (mk, n - 1), "ERR", n, lead))
+            cases.append(("string-cursor-ref", "(let ((s %s) (after (make-vector 3 'x))) (char->integer (string-cursor-ref s (string-cursor-prev s (string-cursor-end s)))))" % mk, "ERR", n, lead))
+            cases.append(("string-set!", "(let ((s %s)) (string-set! s %d #\\b) (list (string-length s) (string->utf8 s) (string? s)))" % (mk, n - 1),
+                          "(%d #u8(%s) #t)" % (n, " ".join(["#x61"] * (n - 1) + ["#x62"])), n, lead))
+            if lead == 0xF0:
+                cases.append(("string-set!", "(let ((s %s)) (string-set! s %d (integer->char 955)) (list (string-length s) (string->utf8 s)))" % (mk, n - 1),
+                              "(%d #u8(%s))" % (n, " ".join(["#x61"] * (n - 1) + ["#xCE", "#xBB"])), n, lead))
+                for op in ("(string->list s)", "(string-copy s)", "(string-append s s)", "(string-upcase s)", "(string->vector s)", "(string->symbol s)",
+                           "(let ((o (open-output-string))) (write s o) (string-length (get-output-string o)))", "(string-for-each (lambda (c) c) s)",
+                           "(string-map char-upcase s)", "(string=? s (string-copy s))", "(string<? s \"b\")", "(substring s 0 (string-length s))",
+                           "(string->number s)", "(read (open-input-string s))"):
+                    cases.append(("any", "(let ((s %s)) (begin %s 'done))" % (mk, op), None, n, lead))
+        # non-scalar integer->char: (integer->char -5) is stored as the single byte FB
+        mk = "(string-append (make-string %d #\\a) (string (integer->char -5)))" % (n - 1)
+        cases.append(("string-set!", "(let ((s %s)) (string-set! s %d #\\b) (list (string-length s) (string->utf8 s) (string? s)))" % (mk, n - 1),
+                      "(%d #u8(%s) #t)" % (n, " ".join(["#x61"] * (n - 1) + ["#x62"])), n, 0xFB))
+    io = run_cases(d, [c[1] for c in cases], imports=IMPORTS, timeout=300, extra_env=ASAN_ENV, max_crashes=6)
+    for (kind, e, want, n, lead), r in zip(cases, io):
+        ctx.count(1, key=("illformed", e), nontrivial=True)
+        if r == "SKIPPED":
+            continue
+        rep = replay_cmd(d, e)
+        if r is None or r.startswith("CRASH") or r == "TIMEOUT":
+            ctx.violation("utf8:%s:truncated-lead:crash" % kind, input=e, expected="a value or an error object", observed=r, replay=rep)
+        elif want == "ERR":
+            zero = "f%x" % ((lead & 0x1f) << 6 if lead < 0xe0 else (lead & 0x1f) << 12 if lead < 0xf0 else (lead & 0x0f) << 18)
+            if not r.startswith("ERR"):
+                ctx.violation("utf8:%s:truncated-lead:out-of-bounds-read" % kind, input=e,
+                              expected="an error object: the lead byte %#x at the end of the %d-byte string announces bytes that are not there" % (lead, n),
+                              observed="%s  (a character assembled from the terminator and the bytes after the string%s)"
+                                       % (r, "; the bits below the lead byte's are not zero: memory of the neighbouring object" if r != zero else ""), replay=rep)
+        elif want is not None and r != want:
+            ctx.violation("utf8:string-set!:truncated-lead:corrupted", input=e, expected=want, observed=r, replay=rep)
+    ctx.note("ill-formed string stream: %d cases (truncated lead bytes C3/E2/F0/F4/FB at the end of strings of 1..63 bytes)" % len(cases))
+
+
+# ------------------------------------------------------------------------------------ part 5d: record slot accessors
+def slot_accessor_stream(ctx, d):
+    """SEXP_OP_SLOT_REF / SLOT_SET trust their instruction operands (type index, slot index); the operands come from
+    make-getter / make-setter, which must therefore refuse a slot the type's objects do not have and a type index that names no
+    type.  Then: getter on an object of the type = the field; on anything else = error (the opcode's type guard)."""
+    pre = ("(define-record-type point (make-point x y) point? (x point-x) (y point-y))\n"
+           "(define-record-type cell3 (make-cell3 a b c) cell3? (a cell3-a) (b cell3-b) (c cell3-c))\n"
+           "(define verif-pt (make-point 'px 'py)) (define verif-c3 (make-cell3 1 2 3))\n")
+    cases = []
+    for k in (-1, 0, 1, 2, 3, 5, 1000, 100000, FIXMAX):
+        for ty, n, obj_, fields in (("point", 2, "verif-pt", ["px", "py"]), ("cell3", 3, "verif-c3", ["f1", "f2", "f3"])):
+            ok = 0 <= k < n
+            cases.append(("make-getter", "(let ((g (make-getter \"g\" %s %d))) (g %s))" % (ty, k, obj_), fields[k] if ok else "ERR"))
+            cases.append(("make-setter", "(let ((o (%s)) (s! (make-setter \"s\" %s %d))) (s! o 'new) 'stored)"
+                          % ("make-point 1 2" if ty == "point" else "make-cell3 1 2 3", ty, k), "stored" if ok else "ERR"))
+        # core type: a pair has car, cdr (and a source slot)
+        cases.append(("make-getter", "(let ((g (make-getter \"g\" (type-of (cons 1 2)) %d))) (g (cons 'kar 'kdr)) 'value)" % k, "value" if 0 <= k < 2 else ("ERR" if k >= 3 or k < 0 else None)))
+        cases.append(("make-setter", "(let ((s! (make-setter \"s\" (type-of (cons 1 2)) %d))) (s! (cons 'kar 'kdr) 9) 'stored)" % k, "stored" if 0 <= k < 2 else ("ERR" if k >= 3 or k < 0 else None)))
+    for t in (100000, 5000, FIXMAX, -1):
+        cases.append(("make-getter", "(let ((g (make-getter \"g\" %d 0))) (g verif-pt))" % t, "ERR"))
+        cases.append(("make-setter", "(let ((g (make-setter \"g\" %d 0))) (g verif-pt 1))" % t, "ERR"))
+    for v in ("5", "'sym", "(cons 1 2)", "verif-c3", "(vector 1 2 3)", "\"str\"", "#f", "(lambda (x) x)", "1.5"):
+        cases.append(("slot-ref", "(point-y %s)" % v, "ERR"))
+        cases.append(("slot-ref", "((make-getter \"g\" point 1) %s)" % v, "ERR"))
+        cases.append(("slot-set", "((make-setter \"s\" point 1) %s 7)" % v, "ERR"))
+    io = run_cases(d, [c[1] for c in cases], imports="(import (only (chibi) make-getter make-setter) (only (chibi ast) type-of))", prelude_extra=pre,
+                   timeout=300, extra_env=ASAN_ENV, max_crashes=6)
+    for (kind, e, want), r in zip(cases, io):
+        ctx.count(1, key=("slot", e), nontrivial=True)
+        if r == "SKIPPED" or want is None and not (r is None or r.startswith("CRASH")):
+            continue
+        rep = replay_cmd(d, "(begin %s %s)" % (pre.replace("\n", " "), e)).replace("(import (scheme base) (scheme write) (chibi))", "(import (scheme base) (scheme write) (chibi) (chibi ast))")
+        if r is None or r.startswith("CRASH") or r == "TIMEOUT":
+            ctx.violation("slot:%s:crash" % kind, input=e, expected="a value or an error object", observed=r, replay=rep)
+        elif want == "ERR" and not r.startswith("ERR"):
+            ctx.violation("slot:%s:out-of-range:no-error" % kind, input=e,
+                          expected="an error object: the type's objects have no such slot / the operand is not of the type", observed=r, replay=rep)
+        elif want != "ERR" and r != want:
+            ctx.broken("outer:slot-accessor:" + kind, "%s: expected %s, implementation answered %s" % (e, want, r))
+    ctx.note("slot accessor stream: %d cases (make-getter / make-setter with slot indices -1 .. beyond the type's slots, bogus type indices; getters and setters on objects of other types)" % len(cases))
 
 
 def _decode_sum(r):
